@@ -306,8 +306,28 @@ fn apply_op(j: &mut Value, op: [u16; 4], attacker: &PeerKey, rep: &mut TamperRep
                 return None;
             }
             let k = keys[pick(op[2], keys.len())].clone();
-            j["cid_info"][s].as_object_mut()?.remove(&k);
             rep.touched_foreign = true;
+            if op[3] % 3 == 2 {
+                // keep the key, rewrite the content: the entry no longer hashes to its CID
+                let before = j["cid_info"][s][&k].clone();
+                let entry = &mut j["cid_info"][s][&k];
+                match s {
+                    "value_store" => *entry = json!(format!("\"rewritten-{}\"", op[2])),
+                    "tetraplet_store" => entry["function_name"] = json!("rewritten_function"),
+                    "service_result_store" => entry["argument_hash"] = json!(cid_of(b"rewritten")),
+                    "canon_element_store" => entry["provenance"] = json!({"type": "literal"}),
+                    _ => {
+                        if let Some(a) = entry["values"].as_array_mut() {
+                            a.pop();
+                        }
+                    }
+                }
+                if j["cid_info"][s][&k] == before {
+                    return None; // nothing to rewrite in this entry
+                }
+                return Some(format!("rewrite-{}-entry-under-same-cid", s));
+            }
+            j["cid_info"][s].as_object_mut()?.remove(&k);
             Some(format!("remove-{}-entry", s))
         }
         18 => {
